@@ -265,7 +265,12 @@ func nearMisses() []ParseCase {
 	}
 	acc("number forms", "1_000", "0x1F", "0X1f", "0b101", "0B11", "0o17", "0O7", ".5", "5.", "1.5e-3", "1E+2", "1e5", "0", "0.5", "0.", "1_0.5", "1.2_5", "1e1_0", "0x1_F", "0xFFFFFFFF")
 	neu("literal outside the int64/float64 range: accept or reject, never panic", "1e400", "-1e400", "1e99999", "$[1e400]", "1.8e308", "9223372036854775808", "-9223372036854775808", "0xFFFFFFFFFFFFFFFFF", "$.decimal(99999999999999999999)", "$[99999999999999999999]", "$.**{99999999999999999999}", "$.time(99999999999999999999)", "0b11111111111111111111111111111111111111111111111111111111111111111", "1e-400", "$.**{4294967295}", "$.**{4294967296 to 2}")
-	neu("left open by the documented syntax", `$ like_regex "(" flag "xq"`, "$.**{2 to 1}", `$ like_regex "\\pL"`, `"\u{110000}"`)
+	neu("left open by the documented syntax", `$ like_regex "(" flag "xq"`, "$.**{2 to 1}", `$ like_regex "\\pL"`)
+	rej("escape above U+10FFFF (not a code point; storing U+FFFD instead would lose the text)", `"\u{110000}"`, `"\u{FFFFFF}"`, `$.a\u{110000}`, `$"v\u{200000}"`, `$."\u{110000}"`, `$ like_regex "\u{7FFFFF}"`, `"\u{10FFFF}\u{110000}"`)
+	acc("the largest code points", `"\u{10FFFF}"`, `"\u{10fffe}"`, `$."\u{100000}"`)
+	// keywords are ASCII: a look-alike that Unicode case mapping folds to a keyword is an ordinary identifier
+	rej("non-ASCII spelling of a keyword used as the keyword", "str\u0130ct $.a", "$.a.s\u0130ze()", "ex\u0130sts($.a)", "$ l\u0130ke_regex \"a\"", "($ == 1) \u0130s unknown", "$ starts w\u0130th \"a\"", "$.a.\u212aeyvalue()", "$.a.t\u0130me(1)", "$[0 to \u212a]", "$.a.\u212a\u0130\u212a()", "$.a.b\u0130g\u0130nt()", "($ == 1) is un\u212anown")
+	acc("non-ASCII look-alikes of keywords are ordinary identifiers", "$.s\u0130ze", "$.\u212aeyvalue", "$.str\u0130ct.\u0130s", "$.a ? (@.w\u0130th == 1)")
 	rej("bad escape", `"\u12"`, `"\u{}"`, `"\u{1234567}"`, `"\xZ1"`, `"\x00"`, `"\u0000"`, `"\u{0}"`, `"\ud83d"`, `"\ud83dx"`, `"\ude04\ud83d"`, `"\ude04"`, `"\`, `"\u{12`, `"\x1"`, `"\u123g"`, `$.a\`, `$.\u12`, `$."\u{0000}"`, `$.a\x00`, `"\ud83dA"`, `"\ud83d\n"`)
 	acc("escapes", `"\b\f\n\r\t\v"`, `"\x41"`, `"A"`, `"\u{41}"`, `"\u{1F600}"`, `"😄"`, `"\""`, `"\\"`, `"\/"`, `"\q"`, `$.aA`, `$.Ab`, `$."\u{10FFFF}"`)
 	rej("unterminated string or comment", `"abc`, `$."abc`, `$"abc`, "$ /* unterminated", "$ /*/", "\"a\nb\"", `$.a like_regex "a`, "$ /* a * /")
